@@ -1,6 +1,9 @@
 // E2 (wire) correspondence harness, package mcp: the real content (un)marshalling, json.Marshal /
 // Unmarshal of every params/result type reachable from the method tables, results as the SDK sends
-// them (zero-valued handler results with nil lists), ioConn read/write with batches over an
+// them (zero-valued handler results with nil lists, handlers returning (nil, nil) — in a child
+// process —, raw Server.AddTool handlers returning every combination of nil/empty/non-empty Content x
+// nil/non-nil StructuredContent x IsError on legacy and current sessions), ioConn read/write with
+// batches (frames also in foreign string spellings) over an
 // in-memory stream, writeEvent/scanEvents, and byte-level fuzz of the decoders.
 // Streams: TestVerifWireMcp (C19), TestVerifWireBatch (C02: ioConn batch bookkeeping).
 package mcp
